@@ -27,6 +27,11 @@ fn check_nevra(n: &str, e: &str, v: &str, r: &str, a: &str, prio: u64, acc: &mut
         let val = Nevra::new(n, e, v, r, a);
         let text = val.to_string();
         let norm = val.as_normalized_form();
+        // the same value built from owned strings must format identically
+        let owned = Nevra::new(n.to_string(), e.to_string(), v.to_string(), r.to_string(), a.to_string());
+        if owned.to_string() != text || owned.as_normalized_form() != norm || owned.nvra() != val.nvra() || owned != val {
+            panic!("a NEVRA built from owned strings formats differently from the same NEVRA built from borrowed ones: {:?} / {:?} vs {:?} / {:?}", owned.to_string(), owned.as_normalized_form(), text, norm);
+        }
         let nvra = val.nvra();
         let back = Nevra::parse(&text);
         let back_vals = (back.name().to_string(), back.epoch().to_string(), back.version().to_string(), back.release().to_string(), back.arch().to_string());
@@ -74,6 +79,10 @@ fn check_evr(e: &str, v: &str, r: &str, prio: u64, acc: &mut Acc) {
         let val = Evr::new(e, v, r);
         let text = val.to_string();
         let norm = val.as_normalized_form();
+        let owned = Evr::new(e.to_string(), v.to_string(), r.to_string());
+        if owned.to_string() != text || owned.as_normalized_form() != norm || owned != val {
+            panic!("an EVR built from owned strings formats differently from the same EVR built from borrowed ones: {:?} / {:?} vs {:?} / {:?}", owned.to_string(), owned.as_normalized_form(), text, norm);
+        }
         let back = Evr::parse(&text);
         let bv = (back.epoch().to_string(), back.version().to_string(), back.release().to_string());
         let nb = Evr::parse(&norm);
